@@ -73,6 +73,8 @@ def st_fork_late(ctx, fr, s, acc):
 
     def worker():
         invoked = []
+        import threading as _th
+        tid = _th.get_ident()
         t_call = ctx.clock()
         try:
             v = call_method(ctx, b, method, r, invoked)
@@ -82,7 +84,8 @@ def st_fork_late(ctx, fr, s, acc):
         t_ret = ctx.clock()
         with ctx.lock:
             ctx.stragglers.append({'tag': tag, 'where': where, 'method': method, 'path': r,
-                                   't_call': t_call, 't_ret': t_ret, 'out': out, 'invoked': bool(invoked)})
+                                   't_call': t_call, 't_ret': t_ret, 'out': out, 'invoked': bool(invoked),
+                                   'thread': tid})
     fork = ctx.hooks.get('fork')
     if fork is not None:
         fork(worker)
